@@ -18,6 +18,7 @@ import (
 	"go/ast"
 	"go/token"
 	"regexp"
+	"strconv"
 	"strings"
 )
 
@@ -733,6 +734,13 @@ func semReach(rel, fn, scope string, pick func(r canonReturn) bool, only []strin
 				hits = append(hits, r)
 			}
 		}
+		if len(hits) == 0 { // the return may have moved into a same-file helper: its path condition continues the caller's
+			for _, r := range v.innerReturns {
+				if pick(r) {
+					hits = append(hits, r)
+				}
+			}
+		}
 		if len(hits) != 1 {
 			panic(bail{fmt.Sprintf("%s: expected exactly one matching return in %s, found %d", rel, fn, len(hits))})
 		}
@@ -854,5 +862,79 @@ func semKeyValues(rel, fn, leanName string) func() string {
 		}
 		return fmt.Sprintf("/-- generated from %s func %s (and its helpers): the fields of its composite literals, values in canonical form -/\ndef %s : List (String × String) :=\n  [%s]\n",
 			rel, fn, leanName, strings.Join(rows, ", "))
+	}
+}
+
+// semAssignReach: the condition (restricted to the conjuncts mentioning `only`) under which the unique assignment whose
+// canonical, space-free source contains every marker is executed.
+func semAssignReach(rel, fn string, markers, only []string, leanName, params string, sp Spec) func() string {
+	return func() string {
+		v := canonOf(rel, fn)
+		var hits []canonAssign
+		for _, a := range v.assigns {
+			var parts []string
+			for _, r := range a.rhs {
+				parts = append(parts, norm(src(r)))
+			}
+			if containsAll("="+strings.Join(parts, ","), markers) {
+				hits = append(hits, a)
+			}
+		}
+		for _, r := range v.allReturns { // `x = f(…)` may have become `return f(…)` of a helper
+			if containsAll("="+strings.Join(r.results, ","), markers) {
+				hits = append(hits, canonAssign{pc: r.pc})
+			}
+		}
+		if len(hits) != 1 {
+			panic(bail{fmt.Sprintf("%s: expected exactly one assignment matching %v in %s, found %d", rel, markers, fn, len(hits))})
+		}
+		t := &tr{sp: sp}
+		var parts []string
+		for _, c := range hits[0].pc {
+			cs := norm(src(c))
+			for _, m := range only {
+				if strings.Contains(cs, norm(m)) {
+					parts = append(parts, t.expr(c))
+					break
+				}
+			}
+		}
+		body := "true"
+		if len(parts) > 0 {
+			body = "(" + strings.Join(parts, " && ") + ")"
+		}
+		return fmt.Sprintf("/-- generated from %s func %s: the condition under which the assignment matching %v is executed -/\ndef %s %s : Bool :=\n  %s\n", rel, fn, markers, leanName, params, body)
+	}
+}
+
+// semAssignFact: `pattern` (a regular expression) is matched against the canonical form `lhs,…=rhs,…` of every assignment of
+// fn and its helpers; exactly `total` assignments must match, and the first capture group of the nth (in execution order) is
+// emitted — as a Nat (asNat) or as a string.  Canonical names do not depend on what the locals are called.
+func semAssignFact(rel, fn, pattern string, nth, total int, asNat bool, leanName string) func() string {
+	return func() string {
+		v := canonOf(rel, fn)
+		re := regexp.MustCompile(pattern)
+		var caps []string
+		for _, a := range v.assigns {
+			var rhs []string
+			for _, r := range a.rhs {
+				rhs = append(rhs, norm(src(r)))
+			}
+			if m := re.FindStringSubmatch(strings.Join(a.lhs, ",") + "=" + strings.Join(rhs, ",")); m != nil {
+				caps = append(caps, m[1])
+			}
+		}
+		if len(caps) != total {
+			panic(bail{fmt.Sprintf("%s: `%s` matches %d canonical assignments of %s (with its helpers), expected %d", rel, pattern, len(caps), fn, total)})
+		}
+		doc := fmt.Sprintf("/-- generated from %s func %s (and its helpers): match %d of %d of `%s` over the canonical assignments -/\n", rel, fn, nth+1, total, pattern)
+		if asNat {
+			n, err := strconv.Atoi(caps[nth])
+			if err != nil {
+				panic(bail{fmt.Sprintf("%s: capture %q of `%s` is not a number", rel, caps[nth], pattern)})
+			}
+			return doc + fmt.Sprintf("def %s : Nat := %d\n", leanName, n)
+		}
+		return doc + fmt.Sprintf("def %s : String := %s\n", leanName, strconv.Quote(caps[nth]))
 	}
 }
